@@ -169,9 +169,11 @@ def finish(ctx, t0, seed, explanation, level_note=None, selftest=None):
         good = [o for o in lst if o.ok]
         pick = bad[:3]
         if good:
-            pick.append(good[seed % len(good)])
+            step = max(1, len(good) // 4)
+            for j in range(min(4, len(good))):
+                pick.append(good[(seed + j * step) % len(good)])
         samples.extend(o.as_dict() for o in pick)
-    samples = samples[:60]
+    samples = samples[:80]
 
     ev = {
         'property_id': ctx.pid,
